@@ -466,6 +466,35 @@ def nonempty_generators(root):
     return out
 
 
+def _container_attrs(tree):
+    """Attribute names every store to which, in this module, assigns a container built on the spot."""
+    good, bad = set(), set()
+    for n in ast.walk(tree):
+        tgts = []
+        if isinstance(n, ast.Assign):
+            tgts = [(t, n.value) for t in n.targets]
+        elif isinstance(n, (ast.AugAssign, ast.AnnAssign)) and n.value is not None:
+            tgts = [(n.target, None)]
+        elif isinstance(n, (ast.For, ast.With, ast.Delete)):
+            for x in ast.walk(n.target if isinstance(n, ast.For) else n):
+                if isinstance(x, ast.Attribute) and isinstance(x.ctx, (ast.Store, ast.Del)):
+                    bad.add(x.attr)
+        for t, v in tgts:
+            for x in ast.walk(t):
+                if isinstance(x, ast.Attribute) and isinstance(x.ctx, ast.Store):
+                    fresh = x is t and v is not None and (
+                        isinstance(v, (ast.Dict, ast.List, ast.Set, ast.ListComp, ast.SetComp, ast.DictComp)) or
+                        (isinstance(v, ast.Call) and isinstance(v.func, ast.Name) and v.func.id in ('set', 'dict', 'list', 'frozenset') and
+                         len(v.args) <= 1))
+                    (good if fresh else bad).add(x.attr)
+        if isinstance(n, ast.Call) and isinstance(n.func, ast.Name) and n.func.id in ('setattr', 'delattr') and len(n.args) >= 2:
+            if isinstance(n.args[1], ast.Constant):
+                bad.add(n.args[1].value)
+            else:
+                return set()
+    return good - bad
+
+
 def _nonempty_names(tree, relpath):
     root = getattr(tree, '_root', None)
     if not root:
@@ -508,6 +537,7 @@ def as_reference(tree, relpath, done):
     if not reff:
         return set()
     equiv.NONEMPTY = frozenset(_nonempty_names(tree, relpath))
+    equiv.NONNULL_ATTRS = frozenset(_container_attrs(tree))
     proven = set()
     cur = functions(tree)
     status = {}
